@@ -8,7 +8,7 @@ TECH = "contract-based deductive verification: sidecar contracts on the real fun
 CLAIMED = {
     "C01": ("proof", "should_run is proved equal to the make-style oracle Stale (strict >, every declared output present, at least one declared file, spec change) for every target, file state and spec-hash state; schedule/get_status_map lift it to the status table (Spec). Path flattening (_flatten, _norm_paths, flattened_inputs/outputs) is proved leaf-wise against the nested inputs/outputs value: the declared file sets are exactly the Canon-images of the leaves, whatever the grouping.",
             "trusted: the two `tree` axioms (a file set is empty iff the value has no leaf; follows from the leaf-wise definition by induction, not mechanised), termination of _flatten's structural recursion, Fs interface (consistent snapshot), finite real mtimes, sha1 as a function of the text, z3, pyvc's encoding of the Python subset", "4 C01"),
-    "C02": ("proof", "schedule/_schedule/_cached_schedule are proved, for every DAG, backend answer and file state, to return Spec on exactly the dependency cone (least closed set, by the arbitrary-superset argument) and to call the submit callback exactly for the targets that need it, once, after their prerequisites, naming exactly the incomplete direct dependencies (ghost submission log). The three real callbacks and backend.status are proved to refine the callback interfaces; filter_names/endpoints select the requested targets.",
+    "C02": ("proof", "schedule/_schedule/_cached_schedule are proved, for every DAG, backend answer and file state, to return Spec on exactly the dependency cone (least closed set, by the arbitrary-superset argument) and to call the submit callback exactly for the targets that need it, once, after their prerequisites, naming exactly the incomplete direct dependencies (ghost submission log). The three real callbacks and backend.status are proved to refine the callback interfaces; filter_names/endpoints select the requested targets, and `gwf run` is proved to pass on exactly the requested ones (names/patterns, all endpoints when none are given): X, the arbitrary dependency-closed set the cone clauses quantify over, is introduced in `run` as containing the requested targets, which turns 'the endpoints handed to submit_workflow lie in X' into a proof obligation.",
             "trusted: definitional axiom of Spec over the acyclic rank (Lean meta-lemma), fnmatch as an uninterpreted relation, scheduler hands out ids not currently tracked, z3, pyvc encoding", "4 C02"),
     "C03": ("other", "mixed: Graph.from_targets is proved to build exactly the path-induced relation, its inverse (no empty entries), the producer map and the unresolved set; endpoints() and _norm_path == Canon are proved, for every set of targets, spelling and definition order. The last clause (`gwf info` reports these same relations) has no deductive contract (the info plugin only formats graph.dependencies / graph.dependents): it is decided by the bounded stand-in cli-info (real command line, 6 workflows incl. alias spellings, every single-target selection).",
             "trusted: os.path algebra (isabs/join/abspath/normpath), attrs-generated Graph constructor, z3, pyvc encoding; bounded: cli-info (6 workflows <= 4 targets)", "4 C03"),
@@ -36,7 +36,7 @@ CLAIMED = {
             "trusted: asyncio isolates a failing connection handler from the server and the other handlers; socket-level faults; itertools.count never repeats; JSON values of the wrong type are abstracted (uninterpreted conversions); z3; pyvc encoding", "4 C14"),
     "C15": ("proof", "the clean command is proved to call os.remove only on unprotected declared outputs of the selected (non-endpoint unless --all) targets, to change nothing when the prompt is declined or graph building fails; spec-hash invalidation per target is in FileSpecHashes.invalidate's contract.",
             "trusted: os.remove (may fail: file then stays), click.confirm, filters' dispatch lemmas, z3, pyvc encoding", "4 C15"),
-    "C16": ("proof", "touch_workflow/_visit (with lru_cache semantics) are proved to touch exactly the declared outputs of the selected cone, every dependency's outputs for the last time before the first touch of any output of a dependent, and to record the spec hash of every visited target; the consequence `status reports completed` is a lemma not yet generated.",
+    "C16": ("proof", "touch_workflow/_visit (with lru_cache semantics) are proved to touch exactly the declared outputs of the selected cone, every dependency's outputs for the last time before the first touch of any output of a dependent, and to record the spec hash of every visited target; the `touch` command is proved to start from exactly the requested targets (same device as for `gwf run`); the consequence `status reports completed` is a lemma not yet generated.",
             "trusted: Path.touch(exist_ok=True) creates or only updates times, monotone clock, z3, pyvc encoding", "4 C16"),
     "C17": ("proof", "cancel_many/cancel/TrackingBackend.cancel are proved: only the latest tracked job of a selected target is cancelled, every selected target is attempted whatever happened to the others (TargetError/BackendError do not stop the loop), a declined prompt cancels nothing. Per-backend cancel commands are not under contract yet.",
             "trusted: scheduler carries out the cancellation, click, fnmatch, z3, pyvc encoding", "4 C17"),
